@@ -237,6 +237,116 @@ Fixpoint run (d : levels) (cur : Z) (rs : list request) : list resp :=
 Definition final_level (d : levels) (cur : Z) (rs : list request) : Z :=
   fold_left (fun c r => after (serve d c r)) rs cur.
 
+(* ------------------------------------------------------------------ *)
+(* level.go: type AtomicLevel struct{ l *atomic.Int32 } is a HANDLE on a cell.  Copying an
+   AtomicLevel -- into a core (zapcore.NewCore, observer.New, Config.Build), into an http mux
+   (mux.Handle(path, lvl)), into Config.Level, into another variable -- copies the pointer, so all
+   copies are the same threshold.  Level/SetLevel/ServeHTTP have value receivers and go through
+   the pointer; UnmarshalText has a pointer receiver (it may allocate the cell of a zero
+   AtomicLevel) and, for an allocated one, stores through the pointer as well.
+
+   A world is a heap of cells and a list of holders; a holder is (kind, address of the cell its
+   handle points to).  The kind only says how the holder is observed:
+     0  a variable of type AtomicLevel          Level()
+     1  a live logger built on a copy            what it lets through, and Logger.Level()
+     2  an http mux the copy is registered with  the answer to GET
+     3  a zap.Config whose Level field it is     cfg.Level.Level() *)
+Record world := { w_cells : list Z; w_holders : list (Z * nat) }.
+
+Inductive sop :=
+| SCopy (h : nat) (k : Z)         (* a new holder of kind k initialised with a copy of holder h's handle *)
+| SFresh (l : Z) (k : Z)          (* a new holder of kind k initialised with NewAtomicLevelAt(l) *)
+| SText (h : nat) (t : bytes)     (* (&holder h).UnmarshalText(t): directly, through flag.TextVar, or through
+                                     encoding/json / yaml.v3 decoding a document that denotes t into the
+                                     variable or into the live Config *)
+| SSet (h : nat) (l : Z)          (* holder h .SetLevel(l) *)
+| SReq (h : nat) (r : request)    (* holder h .ServeHTTP(w, r) (for a mux: mux.ServeHTTP) *)
+| SNop.
+
+Definition cell_load (cs : list Z) (a : nat) : Z := nth a cs 0.
+Fixpoint cell_store (cs : list Z) (a : nat) (v : Z) : list Z :=
+  match cs, a with
+  | [], _ => []
+  | _ :: r, O => v :: r
+  | c :: r, S a' => c :: cell_store r a' v
+  end.
+
+Definition handle_of (w : world) (h : nat) : option nat := option_map snd (nth_error (w_holders w) h).
+Definition with_cells (w : world) (cs : list Z) : world := {| w_cells := cs; w_holders := w_holders w |}.
+Definition add_holder (w : world) (k : Z) (a : nat) : world :=
+  {| w_cells := w_cells w; w_holders := w_holders w ++ [(k, a)] |}.
+
+Definition enc_reply (o : resp) : sx := SL [SZ (status o); SZ (kind o); SB (payload o)].
+
+(* one operation: (world afterwards, what the operation itself returned) *)
+Definition sh_step (d : levels) (w : world) (o : sop) : world * sx :=
+  match o with
+  | SCopy h k =>
+      match handle_of w h with
+      | Some a => (add_holder w k a, SL [])                        (* struct copy: the pointer *)
+      | None => (w, SL [])
+      end
+  | SFresh l k =>                                                   (* new(atomic.Int32); Store(l) *)
+      (add_holder (with_cells w (w_cells w ++ [l])) k (length (w_cells w)), SL [])
+  | SText h t =>
+      match handle_of w h with
+      | Some a =>                                                   (* lvl.l != nil *)
+          let '(l, ok) := level_unmarshal_text d 0 t in             (* var l zapcore.Level; l.UnmarshalText(text) *)
+          if ok then (with_cells w (cell_store (w_cells w) a l), of_bool true)    (* lvl.SetLevel(l) = lvl.l.Store *)
+          else (w, of_bool false)                                   (* return err *)
+      | None => (w, SL [])
+      end
+  | SSet h l =>
+      match handle_of w h with
+      | Some a => (with_cells w (cell_store (w_cells w) a l), SL [])
+      | None => (w, SL [])
+      end
+  | SReq h r =>
+      match handle_of w h with
+      | Some a => let o := serve d (cell_load (w_cells w) a) r in
+                  (with_cells w (cell_store (w_cells w) a (after o)), enc_reply o)
+      | None => (w, SL [])
+      end
+  | SNop => (w, SL [])
+  end.
+
+Definition get_request : request := {| r_method := s_get; r_ctype := []; r_form := []; r_json := JErr |}.
+
+(* what a holder of kind k reports when the cell its handle points to holds v *)
+Definition read_holder (d : levels) (k v : Z) : sx :=
+  if k =? 1 then SL [SZ (enabled_mask v); SZ v]                     (* LevelEnabler of the core; Logger.Level() *)
+  else if k =? 2 then (let o := serve d v get_request in SL [SZ (status o); SB (payload o)])
+  else SZ v.                                                        (* Level() *)
+Definition snapshot (d : levels) (w : world) : sx :=
+  SL (map (fun '(k, a) => read_holder d k (cell_load (w_cells w) a)) (w_holders w)).
+
+(* a history: after every operation, its result and what EVERY holder reports *)
+Fixpoint sh_run (d : levels) (w : world) (ops : list sop) : list sx :=
+  match ops with
+  | [] => []
+  | o :: rest => let '(w', res) := sh_step d w o in SL [res; snapshot d w'] :: sh_run d w' rest
+  end.
+Definition sh_final (d : levels) (w : world) (ops : list sop) : world :=
+  fold_left (fun w o => fst (sh_step d w o)) ops w.
+
+(* the same with the 'deduplicated' UnmarshalText that assigns a freshly parsed AtomicLevel to the
+   receiver ("*lvl = parsed"): the receiver is re-pointed at a new cell.  Kept only to show that the
+   sharing theorems are about something (Props/C20.v, C20_repoint_splits). *)
+Definition sh_step_repoint (d : levels) (w : world) (o : sop) : world * sx :=
+  match o with
+  | SText h t =>
+      match nth_error (w_holders w) h with
+      | Some (k, _) =>
+          let '(l, ok) := parse_atomic_level d t in
+          if ok then ({| w_cells := w_cells w ++ [l];
+                         w_holders := firstn h (w_holders w) ++ (k, length (w_cells w)) :: skipn (S h) (w_holders w) |},
+                      of_bool true)
+          else (w, of_bool false)
+      | None => (w, SL [])
+      end
+  | _ => sh_step d w o
+  end.
+
 (* ================================================================== *)
 (* Specification: written from the documentation, independent of the generated
    tables and of the model functions above. *)
@@ -305,6 +415,89 @@ Definition spec_final (cur : Z) (rs : list request) : Z :=
   fold_left (fun c r => match spec_names_level r with Some l => l | None => c end) rs cur.
 
 (* ------------------------------------------------------------------ *)
+(* One level, many holders.  "sets exactly the requested level" is a statement about the LEVEL, not
+   about the variable the text was decoded into: every holder of the same AtomicLevel -- however it
+   got its copy, before or after -- must report the level last accepted through ANY of them, and
+   holders of another AtomicLevel must be unaffected.  The oracle keeps, per AtomicLevel created
+   (NewAtomicLevelAt), its current level, and per holder the AtomicLevel it was derived from. *)
+
+(* the holder an operation addresses and the level it puts in force, if it does *)
+Definition spec_update (o : sop) : option (nat * Z) :=
+  match o with
+  | SText h t => option_map (pair h) (spec_parse t)
+  | SSet h l => Some (h, l)
+  | SReq h r => option_map (pair h) (spec_names_level r)
+  | _ => None
+  end.
+
+Definition spec_sh_step (w : world) (o : sop) : world :=
+  match o with
+  | SCopy h k => match handle_of w h with Some g => add_holder w k g | None => w end
+  | SFresh l k => add_holder (with_cells w (w_cells w ++ [l])) k (length (w_cells w))
+  | _ => match spec_update o with
+         | Some (h, l) => match handle_of w h with
+                          | Some g => with_cells w (cell_store (w_cells w) g l)
+                          | None => w
+                          end
+         | None => w
+         end
+  end.
+
+(* the answer to a request against a level standing at cur *)
+Definition reply_ok (cur : Z) (r : request) (st kd : Z) (pl : bytes) : bool :=
+  if bytes_eqb (r_method r) s_get then (st =? 200) && (kd =? 1) && bytes_eqb pl (spec_payload cur)
+  else match spec_names_level r with
+       | Some l => (st =? 200) && (kd =? 1) && bytes_eqb pl (spec_payload l)
+       | None => (400 <=? st) && (st <? 500) && (kd =? 2)
+       end.
+
+(* what the operation itself must return, in the state w in which it is issued *)
+Definition spec_res (w : world) (o : sop) (res : sx) : bool :=
+  match o with
+  | SText h t => match handle_of w h with
+                 | Some _ => sx_eqb res (of_bool (is_some (spec_parse t)))
+                 | None => sx_eqb res (SL [])
+                 end
+  | SReq h r => match handle_of w h with
+                | Some g => reply_ok (cell_load (w_cells w) g) r (sx_z (sx_nth res 0)) (sx_z (sx_nth res 1)) (sx_b (sx_nth res 2))
+                | None => sx_eqb res (SL [])
+                end
+  | _ => sx_eqb res (SL [])
+  end.
+
+Definition spec_read (k v : Z) : sx :=
+  if k =? 1 then SL [SZ (enabled_mask v); SZ v]
+  else if k =? 2 then SL [SZ 200; SB (spec_payload v)]
+  else SZ v.
+Definition spec_snapshot (w : world) : sx :=
+  SL (map (fun '(k, g) => spec_read k (cell_load (w_cells w) g)) (w_holders w)).
+
+Fixpoint spec_sh_hist (w : world) (ops : list sop) (obs : list sx) : bool :=
+  match ops, obs with
+  | [], [] => true
+  | o :: ops', ob :: obs' =>
+      let w' := spec_sh_step w o in
+      spec_res w o (sx_nth ob 0) && sx_eqb (sx_nth ob 1) (spec_snapshot w') && spec_sh_hist w' ops' obs'
+  | _, _ => false
+  end.
+
+(* the level a cell holds after a history: that of the last accepted update addressed to a holder
+   of that cell, else what it held before *)
+Fixpoint last_accepted (w : world) (ops : list sop) (a : nat) (cur : Z) : Z :=
+  match ops with
+  | [] => cur
+  | o :: rest =>
+      let cur' := match spec_update o with
+                  | Some (h, l) => match handle_of w h with
+                                   | Some a' => if Nat.eqb a' a then l else cur
+                                   | None => cur
+                                   end
+                  | None => cur
+                  end in
+      last_accepted (spec_sh_step w o) rest a cur'
+  end.
+
+(* ------------------------------------------------------------------ *)
 (* The decidable premise over the generated tables (Proofs.v proves it sound and
    closes it for G by vm_compute). *)
 
@@ -344,12 +537,21 @@ Definition checker (d : levels) : bool :=
                                       from it denotes (oracle), absent when it cannot be represented
         (2 init (req ...))            a request history against one AtomicLevel
             req = (#method #ctype ((#k #v) ...) (jerr (#text ...) final_nil))
+        (3 init k0 (op ...))          a history over AtomicLevel HANDLES: one AtomicLevel at init held by a
+                                      holder of kind k0, then
+            op = (0 h k)              copy holder h's handle into a new holder of kind k
+                 (1 l k)              NewAtomicLevelAt(l) into a new holder of kind k
+                 (2 h #text via)      UnmarshalText(text) on holder h (via: entry point used, not modelled)
+                 (3 h l)              SetLevel(l) through holder h
+                 (4 h req)            ServeHTTP(req) through holder h
    observation
         0: (#String #CapitalString #MarshalText #json.Marshal #AtomicLevel.String #AtomicLevel.MarshalText
             (rt ...))                 rt = (level ok): UnmarshalText(String), UnmarshalText(CapitalString),
                                       json round trip, yaml round trip, each into a target holding tgt
         1: (rt ...)                   the entry points in the order listed in harness/c20.go
-        2: ((status kind #payload after mask) ...)  *)
+        2: ((status kind #payload after mask) ...)
+        3: ((res (reading ...)) ...)  per operation: its result (() | ok | (status kind #payload)) and the
+                                      reading of EVERY holder afterwards: level | (mask level) | (status #body) *)
 
 Definition enc_rt (p : Z * bool) : sx := SL [SZ (fst p); of_bool (snd p)].
 Definition quote (s : bytes) : bytes := x22 :: s ++ [x22].
@@ -421,14 +623,27 @@ Fixpoint spec_hist (cur : Z) (rs : list request) (os : list sx) : bool :=
   | _, _ => false
   end.
 
+(* -- kind 3 -- *)
+Definition dec_sop (s : sx) : sop :=
+  match sx_z (sx_nth s 0) with
+  | 0 => SCopy (sx_n (sx_nth s 1)) (sx_z (sx_nth s 2))
+  | 1 => SFresh (sx_z (sx_nth s 1)) (sx_z (sx_nth s 2))
+  | 2 => SText (sx_n (sx_nth s 1)) (sx_b (sx_nth s 2))
+  | 3 => SSet (sx_n (sx_nth s 1)) (sx_z (sx_nth s 2))
+  | 4 => SReq (sx_n (sx_nth s 1)) (dec_req (sx_nth s 2))
+  | _ => SNop
+  end.
+Definition init_world (init k0 : Z) : world := {| w_cells := [init]; w_holders := [(k0, O)] |}.
+
 Definition wf (i : sx) : bool :=
-  let k := sx_z (sx_nth i 0) in (0 <=? k) && (k <=? 2).
+  let k := sx_z (sx_nth i 0) in (0 <=? k) && (k <=? 3).
 
 Definition model (i : sx) : sx :=
   match sx_z (sx_nth i 0) with
   | 0 => model_level G (sx_z (sx_nth i 1)) (sx_z (sx_nth i 2))
   | 1 => model_text G (sx_z (sx_nth i 1)) (sx_b (sx_nth i 2)) (dec_opt_b (sx_nth i 3)) (dec_opt_b (sx_nth i 4))
   | 2 => SL (map enc_resp (run G (sx_z (sx_nth i 1)) (map dec_req (sx_l (sx_nth i 2)))))
+  | 3 => SL (sh_run G (init_world (sx_z (sx_nth i 1)) (sx_z (sx_nth i 2))) (map dec_sop (sx_l (sx_nth i 3))))
   | _ => SL []
   end.
 
@@ -437,5 +652,6 @@ Definition spec (i o : sx) : bool :=
   | 0 => sx_eqb o (expect_level (sx_z (sx_nth i 1)) (sx_z (sx_nth i 2)))
   | 1 => sx_eqb o (expect_text (sx_z (sx_nth i 1)) (sx_b (sx_nth i 2)) (dec_opt_b (sx_nth i 3)) (dec_opt_b (sx_nth i 4)))
   | 2 => spec_hist (sx_z (sx_nth i 1)) (map dec_req (sx_l (sx_nth i 2))) (sx_l o)
+  | 3 => spec_sh_hist (init_world (sx_z (sx_nth i 1)) (sx_z (sx_nth i 2))) (map dec_sop (sx_l (sx_nth i 3))) (sx_l o)
   | _ => false
   end.
